@@ -126,7 +126,7 @@ func operand(k int, m sim) *canvas.Path {
 }
 
 // apply executes one call on the real path and returns the (possibly new) path.
-func apply(p *canvas.Path, c Call, m sim) (*canvas.Path, error) {
+func apply(p *canvas.Path, c Call, m sim, keep func(q *canvas.Path, c Call, result *canvas.Path)) (*canvas.Path, error) {
 	a := c.A
 	need := func(n int) error {
 		if len(a) != n {
@@ -188,12 +188,20 @@ func apply(p *canvas.Path, c Call, m sim) (*canvas.Path, error) {
 		if err := need(1); err != nil {
 			return p, err
 		}
-		p = p.Append(operand(a[0], m))
+		q := operand(a[0], m)
+		p = p.Append(q)
+		if keep != nil {
+			keep(q, c, p)
+		}
 	case "Join":
 		if err := need(1); err != nil {
 			return p, err
 		}
-		p = p.Join(operand(a[0], m))
+		q := operand(a[0], m)
+		p = p.Join(q)
+		if keep != nil && p != q { // "returns ... q if p is empty": returning the argument itself is documented
+			keep(q, c, p)
+		}
 	default:
 		return p, fmt.Errorf("unknown call %q", c.Op)
 	}
@@ -202,15 +210,73 @@ func apply(p *canvas.Path, c Call, m sim) (*canvas.Path, error) {
 
 // Build replays a history on a fresh real path.
 func Build(h []Call, e latgeo.Emb) (*canvas.Path, error) {
+	p, _, _, err := BuildTracked(h, e)
+	return p, err
+}
+
+// Kept is an argument path of an earlier Append/Join that is kept alive with its value: the result of the call and the
+// argument are independent values (spec: IndependentResultOps), so no later call on the one may change the other.
+type Kept struct {
+	Q    *canvas.Path
+	Snap []float64
+	Call Call
+}
+
+// BuildTracked replays a history and re-checks, after every later call, the arguments of the Append/Join calls made so
+// far. alias != "" describes the first argument that a later call changed.
+func BuildTracked(h []Call, e latgeo.Emb) (p *canvas.Path, kept []Kept, alias string, err error) {
 	m := simOf(e)
-	p := &canvas.Path{}
-	for _, c := range h {
-		var err error
-		if p, err = apply(p, c, m); err != nil {
-			return nil, err
+	p = &canvas.Path{}
+	for i, c := range h {
+		var add []Kept
+		if p, err = apply(p, c, m, func(q *canvas.Path, c Call, _ *canvas.Path) {
+			add = append(add, Kept{Q: q, Snap: cloneF(q.Data()), Call: c})
+		}); err != nil {
+			return nil, nil, "", err
 		}
+		for _, k := range kept {
+			if alias == "" && !sameBits(k.Q.Data(), k.Snap) {
+				alias = fmt.Sprintf("call %d (%s) changed the argument of the earlier %s(%v): %v -> %v", i+1, c.Op, k.Call.Op, k.Call.A, k.Snap, k.Q.Data())
+			}
+		}
+		kept = append(kept, add...)
 	}
-	return p, nil
+	return p, kept, alias, nil
+}
+
+// ProbeAliasing modifies the arguments of the earlier Append/Join calls and then the result in place (LineTo,
+// Transform) and requires the other side to keep its value. data = snapshot of p.Data(). The objects are used up.
+func ProbeAliasing(p *canvas.Path, data []float64, kept []Kept, e latgeo.Emb) string {
+	if len(kept) == 0 {
+		return ""
+	}
+	x, y := e.Map(7, 9)
+	tr := canvas.Identity.Translate(3*math.Hypot(e.A, e.C), -2*math.Hypot(e.A, e.C))
+	msg := ""
+	latgeo.Try(func() {
+		for _, k := range kept {
+			if k.Q == p {
+				continue
+			}
+			k.Q.LineTo(x, y)
+			k.Q.Transform(tr)
+			if msg == "" && !sameBits(p.Data(), data) {
+				msg = fmt.Sprintf("LineTo and Transform on the argument of %s(%v) changed the result: %v -> %v", k.Call.Op, k.Call.A, data, p.Data())
+			}
+		}
+		snaps := make([][]float64, len(kept))
+		for i, k := range kept {
+			snaps[i] = cloneF(k.Q.Data())
+		}
+		p.LineTo(x+1, y)
+		p.Transform(tr)
+		for i, k := range kept {
+			if k.Q != p && msg == "" && !sameBits(k.Q.Data(), snaps[i]) {
+				msg = fmt.Sprintf("LineTo and Transform on the result changed the argument of %s(%v): %v -> %v", k.Call.Op, k.Call.A, snaps[i], k.Q.Data())
+			}
+		}
+	})
+	return msg
 }
 
 const latTol = 1e-6 // lattice units
